@@ -215,7 +215,7 @@ HARNESSES = [
 ]
 
 
-DEALLOC_ARTEFACT = (r"(rust_dealloc must be called on an object whose allocated size matches its layout|free argument|double free) @ __rust_dealloc",
+DEALLOC_ARTEFACT = (r"^(rust_dealloc must be called on an object whose allocated size matches its layout|free argument [^@]*|double free)\s*@ __rust_dealloc",
                     "five checks INSIDE Kani's C model of __rust_dealloc fail in this harness on the unchanged tree although every assertion and cover of the harness holds; "
                     "the same family of failures appeared and disappeared in other harnesses when only the harness structure changed (same repository code executed), "
                     "and everything these harnesses execute between allocating and freeing the objects concerned (BenchContext and its vectors) is safe Rust, which cannot double-free; "
